@@ -54,6 +54,17 @@ def unit_elements(ctx, toks):
             out.append(P('&', toks[i].ws)); toks[i].ws = ''; fire(ctx, 'element-address')
         out.append(toks[i]); i += 1
     return out
+def string_equal(ctx, toks):
+    """a == b  with both operands std::string variables  ->  nstring_eq(&a, &b)"""
+    from cxx2c import tokenize, fire
+    out = []; i = 0
+    while i < len(toks):
+        t = toks[i]
+        if t.k == 'id' and t.t in ctx.env and ctx.env[t.t][0] == 'nstring' and toks[i + 1].t == '==' and toks[i + 2].k == 'id' and toks[i + 2].t in ctx.env and ctx.env[toks[i + 2].t][0] == 'nstring':
+            out.extend(tokenize('%snstring_eq(&%s, &%s)' % (t.ws, t.t, toks[i + 2].t))); i += 3; fire(ctx, 'string-equal'); continue
+        out.append(t); i += 1
+    return out
+UNITS['isScalable_pair'] = dict(file=UC, locator=r'bool\s+isScalable\s*\((?=\s*const\s+string\s*&\s*unitA)', classes=['nstring'], post_rules=[string_equal])
 from cxx2c import ExtractError
 UNITS['scalePositions'] = dict(file='src/util/dataAccess.cpp', locator=r'void\s+scalePositions\s*\(', classes=['nstring'], pre_rules=[try_catch_all], post_rules=[unit_elements], calls={'getSIScaling': 'getSIScaling_caught'}, subst={'vec_string': 'vec_nstr'})
 EXTRA = 'prefix_map PREFIX_FACTORS; bool gh_scalable; int gh_org_prefix, gh_dest_prefix, gh_org_power, gh_dest_power;\n'
@@ -67,7 +78,9 @@ JOBS = [dict(name='getSIScaling[power=%d,org0=%d,dest0=%d]' % (pw, o0, d0), bodi
 JOBS.append(dict(name='scalePositions[bounded]', bodies=['scalePositions'], enforce=['scalePositions'], replace=[], includes=['c18_scale.h'],
                  extra_c='int gh_bad[SC_MAX]; int gh_dim_unit_id; size_t gh_sc_calls;\n', cbmc_flags=['--unwind', '4', '--unwinding-assertions'], expect_kinds=['postcondition', 'unwind'], timeout=900,
                  bounded='at most 2 positions; the loop writes the result arrays and is unwound completely'))
-SPEC = dict(contracts=['c18_units.h', 'c18_scale.h'], stubs=[], units=UNITS, jobs=JOBS, pre_hook=gen_table,
+JOBS.append(dict(name='isScalable_pair', bodies=['isScalable_pair'], enforce=['isScalable_pair'], replace=[], includes=['c18_scalable.h'], extra_c='int gh_si[3], gh_pre[3], gh_base[3], gh_pow[3]; int gh_splits;\n',
+                 expect_kinds=['postcondition'], timeout=300))
+SPEC = dict(contracts=['c18_units.h', 'c18_scale.h', 'c18_scalable.h'], stubs=[], units=UNITS, jobs=JOBS, pre_hook=gen_table,
             trusted_base=['CBMC 6.11.0 (C front end, --dfcc, SAT back end)', 'vlib/cxx2c.py idiom map; the PREFIX_FACTORS initialiser is turned into a C array by vlib/props/c18.py',
                           'std::string abstracted to an integer id; std::map::at = table lookup; pow for integer exponents -3..3 = repeated multiplication (libm rounding not modelled)',
                           'splitUnit / isScalable / isSIUnit (boost::regex grammar) are ghost inputs'],
